@@ -449,6 +449,7 @@ class Calibrator(BaseSeedable):
                 self.current_batch_index += 1
 
                 # check convergence for early termination
+                converged = False
                 if self.convergence_precision is not None:
                     converged = self.check_convergence(
                         self.losses_samp,
@@ -458,10 +459,12 @@ class Calibrator(BaseSeedable):
                     if converged and self.verbose:
                         print("\nCONVERGENCE CHECK:")
                         print("Achieved convergence loss, stopping search.")
-                        break
 
                 if self.saving_folder is not None:
                     self.create_checkpoint(self.saving_folder)
+
+                if converged:
+                    break
 
             idx = np.argsort(self.losses_samp)
 
